@@ -21,4 +21,4 @@ $B/llvm-profdata merge -sparse $S/prof/*.profraw -o $S/all.profdata
 $B/llvm-cov report $S/target/rel/acpiv -object $S/target/chk/acpiv -instr-profile=$S/all.profdata --ignore-filename-regex='(harness|registry|rustc|library)' | cut -c1-200
 echo "--- lines of /repo/src never executed:"
 $B/llvm-cov show $S/target/rel/acpiv -object $S/target/chk/acpiv -instr-profile=$S/all.profdata --ignore-filename-regex='(harness|registry|rustc|library)' 2>/dev/null | grep -E "^/|^ +[0-9]+\| +0\|" | grep -B1 "| *0|" | grep -v "^--" | cut -c1-140
-cd /; rm -rf $S
+cd /; rm -rf $S; rm -f /repo/default_*.profraw /verif/default_*.profraw /verif/harness/default_*.profraw   # stray profiles of instrumented helper processes
